@@ -117,6 +117,34 @@ def curated():
     D["three_way"] = {"items": [M("A"), M("B"), M("C"), T("T0", [call("A"), call("B")]), T("T1", [call("B"), call("C")]), T("T2", [call("C"), call("A")])]}
     D["rets_as_args"] = {"items": [M("A", iw=2, ow=2, out="inc"), M("B", iw=2, ow=2), T("T0", [call("A"), call("B", arg=["ret", 0])])]}
     D["uncalled"] = {"items": [M("A"), M("U", [call("A")], iw=0, ow=0), T("T0", [call("A")])]}
+    # --- shapes added after the second seeded-change campaign (DESIGN.md 12.5) ---------------------------------------
+    # every kind of statement in every alternative of an If/Elif/Elif/Else chain (overlapping conditions: all are free)
+    D["elif_witness_everywhere"] = {"items": [M("M0", iw=1), M("M1", iw=0, ow=0), M("M2", [If(ALLW, ALLW + [call("M1")], els=ALLW)], iw=0, ow=1),
+                                              T("T0", [If(ALLW + [call("M0")], ALLW + [call("M0")], ALLW + [call("M2")], els=ALLW + [call("M0", en=True)])])]}
+    # two add_conflict relations that lift to the same ordered pair of transactions, only the second with a priority;
+    # both definition orders of the transactions (the default order is "fewer conflicts, then definition order")
+    for pr in ("L", "R"):
+        for first in ("UA", "UB"):
+            ua, ub = T("UA", [call("a_cfg"), call("a_data")]), T("UB", [call("b_cfg"), call("b_data")])
+            D[f"two_relations_same_pair_{pr}_{first}"] = {
+                "items": [M("a_cfg", iw=0, ow=0), M("b_cfg", iw=0, ow=0), M("a_data", iw=0), M("b_data", iw=0)] + ([ua, ub] if first == "UA" else [ub, ua]),
+                "relations": [["conflict", "a_cfg", "b_cfg", "U"], ["conflict", "a_data", "b_data", pr]]}
+    # one body carrying several relations, the later ones naming bodies defined earlier (methods, then transactions)
+    D["several_relations_one_method"] = {"items": [M("inc", iw=0), M("dec", iw=0), M("clear", iw=0, ow=0), T("T0", [call("inc")]), T("T1", [call("dec")]), T("T2", [call("clear")])],
+                                         "relations": [["conflict", "clear", "dec", "U"], ["conflict", "clear", "inc", "U"]]}
+    D["several_relations_one_transaction"] = {"items": [M("A", iw=0), T("T0", [call("A")]), T("T1"), T("T2"), T("T3")],
+                                              "relations": [["conflict", "T3", "T2", "U"], ["conflict", "T3", "A", "L"], ["conflict", "T3", "T1", "R"]]}
+    # a schedule_before chain (Forwarder-style: the reader's readiness is the writer's run) that leaves a conflict
+    # component and re-enters it: head and tail of the chain share an exclusive method
+    for variant in ("head_more_conflicts", "tail_defined_first"):
+        ms = [M("W1", iw=0, ow=0), M("R1", iw=0, ow=0, ready=["run_or", "W1"]), M("W2", iw=0, ow=0), M("R2", iw=0, ow=0, ready=["run_or", "W2"]),
+              M("PORT", iw=0, ow=0), M("AUX", iw=0, ow=0)]
+        produce = T("produce", [call("PORT"), call("W1")] + ([call("AUX")] if variant == "head_more_conflicts" else []))
+        relay = T("relay", [call("R1"), call("W2")])
+        consume = T("consume", [call("PORT"), call("R2")])
+        other = T("other", [call("AUX")])
+        ts = [produce, relay, consume, other] if variant == "head_more_conflicts" else [consume, relay, produce, other]
+        D[f"before_chain_reenters_component_{variant}"] = {"items": ms + ts, "relations": [["before", "W1", "R1", False], ["before", "W2", "R2", False]]}
     return D
 
 
